@@ -1,5 +1,5 @@
 From Coq Require Import ZArith List Bool Lia Arith.
-From Tally Require Import Base.Obs Model.Multi.
+From Tally Require Import Base.ObsCore Model.Multi.
 Import ListNotations.
 Open Scope Z_scope.
 
